@@ -140,10 +140,29 @@ func (p *Program) mayBeNil(v ssa.Value, b *ssa.BasicBlock) bool {
 	if p.isNonNilError(v) {
 		return false
 	}
+	factNonNil := func() bool {
+		cv := canonLoad(v)
+		for _, f := range factsAt(b) {
+			if f.Op != token.NEQ {
+				continue
+			}
+			if (isNilConst(f.Y) && (f.X == v || canonLoad(f.X) == cv)) || (isNilConst(f.X) && (f.Y == v || canonLoad(f.Y) == cv)) {
+				return true
+			}
+		}
+		return false
+	}
 	switch x := v.(type) {
 	case *ssa.Alloc, *ssa.MakeClosure, *ssa.MakeChan, *ssa.MakeMap, *ssa.MakeSlice, *ssa.Function:
 		return false
 	case *ssa.Phi:
+		// the merged value itself was tested on the way to b
+		if factNonNil() {
+			return false
+		}
+		if r := resolvePhiAt(x, b); r != ssa.Value(x) {
+			return p.mayBeNil(r, b)
+		}
 		for i, e := range x.Edges {
 			if p.mayBeNil(e, x.Block().Preds[i]) {
 				// an edge value is judged with the facts at the end of its predecessor
